@@ -102,8 +102,8 @@ pub fn text_match(rtext: &TextRef, qtext: &TextRef, tls: &mut Tls, tlsm: &mut Tl
         tm_some(rtext, qtext, ret), // [C03 C04 C13]
 {
     proof {
-        if exists|j: int| #[trigger] pair_prefix(rtext, qtext, j) || pair_equal(rtext, qtext, j) {
-            let j = choose|j: int| #[trigger] pair_prefix(rtext, qtext, j) || pair_equal(rtext, qtext, j);
+        if exists|j: int| #![trigger pair_prefix(rtext, qtext, j)] #![trigger pair_equal(rtext, qtext, j)] pair_prefix(rtext, qtext, j) || pair_equal(rtext, qtext, j) {
+            let j = choose|j: int| #![trigger pair_prefix(rtext, qtext, j)] #![trigger pair_equal(rtext, qtext, j)] pair_prefix(rtext, qtext, j) || pair_equal(rtext, qtext, j);
             lemma_pair_must(rtext, qtext, j);
         }
         if exists|j: int, p: int| #[trigger] pair_edit1(rtext, qtext, j, p) {
